@@ -18,6 +18,7 @@ ops
   `merge <i> <j>`    vars[i].MergeFrom(vars[j])
   `add <i>`          world.AddFeature(vars[i])            (status err = rejected by validation)
   `wtag <kind> <id> k=v` / `wrm <kind> <id> k`             world.AddTag / world.RemoveTag
+  `fromworld <kind> <id>`   vars.push(NewFeatureFromWorld(world.FindFeatureByID(id)))
   `mut <i> <mutator>` with mutator one of
      `setid <id>` `settags [k=v …]` `addtag k=v` `settag k=v` `rmtag k` `rmtags [k …]` `rmall`
      `setpathids <i> [id …]` `setpathid <i> <j> <id>` `setpoly <i> <P|->`
@@ -26,7 +27,7 @@ ops
 Verdict.  The property predicate is evaluated on the implementation's own answers (previous line vs this
 line): everything except the operation's target — the other caller values, the (other) world entries — is
 literally unchanged (`isolation`, also when the call panics); a clone is observably equal to its original
-(`clone`); after an accepted `add` the world returns what was passed (`store`); a rejected `add` changes nothing.  Then the
+(`clone`), a copy taken from the world to the world's entry (`copy`); after an accepted `add` the world returns what was passed (`store`); a rejected `add` changes nothing.  Then the
 whole answer is compared with the model's (`diff`).
 -/
 open B6.Driver B6.Model.FeatureHeap
@@ -123,6 +124,7 @@ def parseOp (op : String) : Option Op :=
   | ["add", i] => i.toNat?.map .add
   | ["wtag", kind, id, kv] => (parseKind kind).bind fun k => (parseKV kv).map fun p => .wtag k id p.1 p.2
   | ["wrm", kind, id, k] => (parseKind kind).map fun kd => .wrm kd id k
+  | ["fromworld", kind, id] => (parseKind kind).map fun k => .fromWorld k id
   | "mut" :: i :: rest => i.toNat?.bind fun i => (parseMut rest).map fun m => .upd i m
   | _ => none
 
@@ -150,6 +152,13 @@ def predicate (st : St) (op : Op) (status : String) (world vars : List String) :
     if !(world == st.world && vars.take st.vars.length == st.vars && vars.length == st.vars.length + 1)
     then some "isolation"
     else if vars.getLast? == st.vars[i]? then none else some "clone"
+  | .fromWorld k id =>
+    -- a new caller value, observably equal to the world's entry; nothing else changes
+    if panicked then (if same then none else some "isolation") else
+    if !(world == st.world && vars.take st.vars.length == st.vars && vars.length == st.vars.length + 1)
+    then some "isolation"
+    else if (vars.getLast?.map fun v => [v]) == some (world.filter (entryKey · == kindLetter k ++ ":" ++ id))
+    then none else some "copy"
   | .upd i _ | .merge i _ =>
     if world == st.world && vars.length == st.vars.length && dropAt vars i == dropAt st.vars i
     then none else some "isolation"
